@@ -130,7 +130,6 @@ func signedMsgCore(c *an.Check) {
 	sigValidateGates(c)
 }
 
-
 func c01(c *an.Check) {
 	signedMsgCore(c)
 	thoroughCallers(c, "signed-message verification", 0, []string{"peer", "signaling/rpc", "pubsub"}, fnSMExtractAndVerify, fnSMExtractPubKey, cSMEV)
